@@ -214,6 +214,97 @@ theorem splitGo_scan (rest : List Char) : ∀ (s : List Char) (nsp : Nat) (acc :
       · rw [h3]
         simp [cur]
 
+/-! ### `split3` against the meaning of `str.split` -/
+
+theorem splitGo_ne_nil : ∀ (s : List Char) (nsp : Nat) (acc : List Char), splitGo nsp acc s ≠ [] := by
+  intro s
+  induction s with
+  | nil => intro nsp acc; simp [splitGo]
+  | cons c t ih =>
+    intro nsp acc
+    unfold splitGo
+    split
+    · split
+      · simp
+      · exact ih _ _
+    · exact ih _ _
+
+theorem intercalate_cons_of_ne_nil {α : Type} (sep a : List α) (l : List (List α)) (h : l ≠ []) :
+    List.intercalate sep (a :: l) = a ++ sep ++ List.intercalate sep l := by
+  cases l with
+  | nil => exact absurd rfl h
+  | cons b t => simp [List.intercalate]
+
+theorem splitGo_join : ∀ (s : List Char) (nsp : Nat) (acc : List Char), nsp ≤ 2 →
+    List.intercalate [sp, sp, sp] (splitGo nsp acc s) = cur nsp acc ++ s := by
+  intro s
+  induction s with
+  | nil => intro nsp acc _; simp [splitGo, cur, List.intercalate]
+  | cons c t ih =>
+    intro nsp acc hn
+    unfold splitGo
+    by_cases hc : c = sp
+    · rw [if_pos hc]
+      by_cases h2 : nsp = 2
+      · rw [if_pos h2, intercalate_cons_of_ne_nil _ _ _ (splitGo_ne_nil _ _ _), ih 0 [] (by omega)]
+        subst h2
+        simp [cur, List.replicate, hc]
+      · rw [if_neg h2, ih (nsp + 1) acc (by omega)]
+        simp [cur, List.replicate_succ, hc]
+    · rw [if_neg hc, ih 0 _ (by omega)]
+      simp [cur]
+
+
+theorem scan_append : ∀ (a b : List Char) (n : Nat), scan n (a ++ b) = (scan n a).bind (fun k => scan k b) := by
+  intro a
+  induction a with
+  | nil => intro b n; simp [scan]
+  | cons c t ih =>
+    intro b n
+    simp only [List.cons_append, scan]
+    split
+    · split
+      · simp
+      · exact ih b _
+    · exact ih b _
+
+theorem splitGo_pieces : ∀ (s : List Char) (nsp : Nat) (acc : List Char), scan 0 (cur nsp acc) = some nsp →
+    ∀ p ∈ splitGo nsp acc s, tailOK p = true := by
+  intro s
+  induction s with
+  | nil =>
+    intro nsp acc h p hp
+    simp only [splitGo, List.mem_singleton] at hp
+    subst hp
+    simp only [tailOK]; simp only [cur] at h; rw [h]; rfl
+  | cons c t ih =>
+    intro nsp acc h p hp
+    unfold splitGo at hp
+    by_cases hc : c = sp
+    · rw [if_pos hc] at hp
+      by_cases h2 : nsp = 2
+      · rw [if_pos h2] at hp
+        simp only [List.mem_cons] at hp
+        rcases hp with rfl | hp
+        · subst h2
+          have e : cur 2 acc = acc.reverse ++ [sp, sp] := by simp [cur, List.replicate]
+          rw [e, scan_append] at h
+          simp only [tailOK]
+          cases hs : scan 0 acc.reverse with
+          | none => rw [hs] at h; simp at h
+          | some k => rfl
+        · exact ih 0 [] (by simp [cur, scan]) p hp
+      · rw [if_neg h2] at hp
+        refine ih (nsp + 1) acc ?_ p hp
+        have e : cur (nsp + 1) acc = cur nsp acc ++ [sp] := by simp [cur, List.replicate_succ]
+        rw [e, scan_append, h]
+        simp [scan, h2]
+    · rw [if_neg hc] at hp
+      refine ih 0 _ ?_ p hp
+      have e : cur 0 (c :: (List.replicate nsp sp ++ acc)) = cur nsp acc ++ [c] := by simp [cur]
+      rw [e, scan_append, h]
+      simp [scan, hc]
+
 /-! ### transposition (`zip(*rows)`) -/
 
 /-- every row has length `c` -/
